@@ -14,6 +14,14 @@ import MosnVerif.Lemmas.H1Serve
 import MosnVerif.Lemmas.H2ClientSettings
 import MosnVerif.Lemmas.NeedMoreLive
 import MosnVerif.Lemmas.H2Trailers
+import MosnVerif.Lemmas.CheckedMatch
+import MosnVerif.Lemmas.CheckedH2Parse
+import MosnVerif.Model.CheckedWire
+import MosnVerif.Lemmas.H2Alloc
+import MosnVerif.Lemmas.HpackNoPanic
+import MosnVerif.Lemmas.StreamAlloc
+import MosnVerif.Lemmas.CheckedMatchEq
+import MosnVerif.Lemmas.HpackRead
 /-!
 # C08 — malformed input is contained (property theorems only)
 
@@ -769,5 +777,283 @@ example : (run cfgGen {} [.headers .head true false, .data false, .headers .trai
 example : let s := run cfgGen {} [.headers .head false true, .headers .trail false true]
     s.del = ["h"] ∧ s.resets = 1 ∧ s.rst = 1 ∧ s.closed = false ∧ s.panicked = false := by decide
 end c08l9trailers
+
+/-! ## [c08p10] protocol matchers and HTTP/2 frame payload parsers as regenerated checked-access programs
+(Gen/C08Matchers, Gen/C08H2Parse: the Go function bodies translated statement by statement, every index / slice /
+big-endian read a checked primitive of Model/CheckedGo); allocation structure of the HTTP/2 read path (Gen/C08H2Alloc) -/
+section c08p10
+open MosnVerif.Model.CheckedGo MosnVerif.Model.CheckedWire MosnVerif.Gen.C08H2Parse
+open MosnVerif.Lemmas.CheckedMatch MosnVerif.Lemmas.CheckedH2Parse
+
+/-- every registered matcher is safe (no out-of-range access) and answers a MatchResult -/
+theorem matcher_safe (name : String) (m : MosnVerif.Model.CheckedGo.Bytes → Chk MR) (h : matcherOf name = some m)
+    (b : MosnVerif.Model.CheckedGo.Bytes) : (m b).Safe (fun _ => True) := by
+  unfold matcherOf at h
+  split at h <;> simp only [Option.some.injEq, reduceCtorEq] at h <;> subst h
+  · exact Safe.bind (bolt_safe b) (fun _ _ => Safe.ok trivial)
+  · exact Safe.bind (boltv2_safe b) (fun _ _ => Safe.ok trivial)
+  · exact Safe.bind (dubbo_safe b) (fun _ _ => Safe.ok trivial)
+  · exact Safe.bind (thrift_safe b) (fun _ _ => Safe.ok trivial)
+  · exact Safe.bind (tars_safe b) (fun _ _ => Safe.ok trivial)
+  · exact Safe.bind (http1_safe b) (fun _ _ => Safe.ok trivial)
+  · exact Safe.bind (http2_safe b) (fun _ _ => Safe.ok trivial)
+
+/-- **matchers_no_oob**: for EVERY byte string (empty, 1..N bytes, any content) NO registered protocol matcher —
+`boltMatcher`, `boltv2Matcher`, `dubboMatcher`, `thriftMatcher`, `tarsMatcher` incl. TarsGo's `TarsRequest` (the
+functions the codecs hand out in `ProtocolMatch()`), `ProtocolMatch` of the HTTP/1 and HTTP/2 stream factories, each
+regenerated statement by statement with checked access — reads at or beyond the length it was given (Go: index / slice
+bounds out of range panic; with spare capacity behind the peeked bytes: a read of bytes that were not received). -/
+theorem matchers_no_oob (name : String) (m : MosnVerif.Model.CheckedGo.Bytes → Chk MR) (h : matcherOf name = some m)
+    (b : MosnVerif.Model.CheckedGo.Bytes) : m b ≠ .oob :=
+  Safe.ne_oob (matcher_safe name m h b)
+
+/-- **matchers_total**: on every byte string every matcher answers, and the answer is one of MatchFailed / MatchAgain /
+MatchSuccess -/
+theorem matchers_total (name : String) (m : MosnVerif.Model.CheckedGo.Bytes → Chk MR) (h : matcherOf name = some m)
+    (b : MosnVerif.Model.CheckedGo.Bytes) : ∃ r, m b = .ok r ∧ (r = .failed ∨ r = .again ∨ r = .success) := by
+  obtain ⟨r, hr, _⟩ := matcher_safe name m h b
+  exact ⟨r, hr, by cases r <;> simp⟩
+
+/-- `streamConnFactory.ProtocolMatch` hands the matcher's verdict on unchanged: success ↦ nil, again ↦ EAGAIN, failed ↦ FAILED -/
+theorem xfactory_result_faithful (r : MR) : errToMR (MosnVerif.Gen.C08Matchers.xfactory_result r) = r ∧
+    MosnVerif.Gen.C08Matchers.xfactory_noMatcher = Err.failed := by
+  cases r <;> decide
+
+/-- **gen_matchers_eq_model** (one matcher semantics for C07 and C08): for every registered matcher and EVERY byte string
+the regenerated checked-access program answers exactly what the hand-written matcher model of C07 (Model/Match.lean:
+the functions `match_monotone`, `scope_monotone`, `select_*` are about) answers, and never `oob`; the two tables have the
+same names (`genMatcherOf_eq`, `genScopeOf_eq` in Lemmas/CheckedMatchEq: C07's `matcherOf` / `scopeOf` ARE the regenerated
+functions). -/
+theorem gen_matchers_eq_model (name : String) (g : MosnVerif.Model.CheckedGo.Bytes → Chk MR)
+    (m : List UInt8 → MosnVerif.Model.Match.MR) (hg : matcherOf name = some g)
+    (hm : MosnVerif.Model.Match.matcherOf name = some m) (b : List UInt8) :
+    g b = .ok (MosnVerif.Lemmas.CheckedMatchEq.toMR (m b)) ∧
+    MosnVerif.Lemmas.CheckedMatchEq.genMatcherOf name = MosnVerif.Model.Match.matcherOf name :=
+  ⟨MosnVerif.Lemmas.CheckedMatchEq.gen_eq name g m hg hm b, MosnVerif.Lemmas.CheckedMatchEq.genMatcherOf_eq name⟩
+
+-- non-vacuity: all seven names are matchers; boundary answers of the regenerated programs
+example : matcherNames.all (fun n => (matcherOf n).isSome) = true := by decide
+example : (matcherNames.map (fun n => ((matcherOf n).map (fun m => matchTok (m []))).getD "-")) =
+    ["again", "again", "again", "again", "again", "again", "again"] := by decide
+example : (matcherOf "tars").map (fun m => matchTok (m [0, 0, 0, 6, 0x10, 1])) = some "success" := by decide
+example : (matcherOf "tars").map (fun m => matchTok (m [0, 0, 0, 6, 0x10])) = some "again" := by decide
+example : (matcherOf "http1").map (fun m => matchTok (m [71, 69, 84])) = some "success" := by decide
+example : (matcherOf "http2").map (fun m => matchTok (m [80, 82, 73, 32, 42])) = some "again" := by decide
+-- the class the theorem excludes: an index one past a length test
+example : idx [1, 2, 3, 4] 4 = .oob ∧ slc [1, 2, 3, 4] 2 5 = .oob ∧ slc [1, 2, 3, 4] 3 2 = .oob ∧ beU 4 [1, 2, 3] = .oob := by decide
+
+/-- **h2_payload_parsers_no_oob**: for EVERY frame header (any type incl. unknown ones, any flags incl. every
+PADDED / PRIORITY / ACK combination, any stream id, any announced length) and EVERY payload, the payload parser
+`typeFrameParser(fh.Type)` picks (`parseDataFrame`, `parseHeadersFrame`, `parsePriorityFrame`, `parseRSTStreamFrame`,
+`parseSettingsFrame` with `Value` / `Setting` / `NumSettings`, `parsePushPromise`, `parsePingFrame`, `parseGoAwayFrame`,
+`parseWindowUpdateFrame`, `parseContinuationFrame`, `parseUnknownFrame`; `readByte`, `readUint32`, `Flags.Has`),
+regenerated with checked access, makes no access outside `[0, len payload)`. -/
+theorem h2_payload_parsers_no_oob (fh : FH) (payload : MosnVerif.Model.CheckedGo.Bytes) : h2p_parse fh payload ≠ .oob :=
+  Safe.ne_oob (parse_spec fh payload)
+
+/-- what the parsers hand on lies inside the payload: an error comes with no frame; a frame's byte-slice fields (data,
+header block fragment, debug data, settings, opaque payload) are never longer than the payload -/
+theorem h2_fragments_within_payload (fh : FH) (payload : MosnVerif.Model.CheckedGo.Bytes) (f : Frm) (e : Err)
+    (h : h2p_parse fh payload = .ok (f, e)) :
+    (e ≠ .nil → f = Frm.nil) ∧ (e = .nil → f.isNil = false ∧ ∀ d ∈ f.bs, d.length ≤ payload.length) := by
+  have hs := Safe.value (parse_spec fh payload) h
+  refine ⟨hs.1, fun he => ⟨(hs.2 he).1, fun d hd => ?_⟩⟩
+  have := (hs.2 he).2 d hd
+  simp only [len] at this
+  omega
+
+/-- **h2_padding_checked**: DATA, HEADERS (with or without PRIORITY) and PUSH_PROMISE, for EVERY header and payload:
+the parser answers (no panic), and a frame is delivered only together with ONE fragment for which
+`|fragment| + (1 + pad length, if PADDED) + fixed fields = |payload|` — so a pad length larger than what remains behind
+the pad-length octet and the fixed fields (5 with PRIORITY, 4 for the promised stream id) is ALWAYS an error, never a
+negative or overlong slice bound. -/
+theorem h2_padding_checked (fh : FH) (p : MosnVerif.Model.CheckedGo.Bytes) :
+    let padded := decide (land fh.Flags 8 = 8)
+    let over : Int := if padded then 1 + byteAt p 0 else 0
+    (∃ f e, h2p_parseDataFrame fh p = .ok (f, e) ∧ (len p < over → e ≠ .nil) ∧
+      (e = .nil → ∃ d, f.bs = [d] ∧ len d + over = len p)) ∧
+    (∃ f e, h2p_parseHeadersFrame fh p = .ok (f, e) ∧ (len p < over + (if land fh.Flags 32 = 32 then 5 else 0) → e ≠ .nil) ∧
+      (e = .nil → ∃ d, f.bs = [d] ∧ len d + over + (if land fh.Flags 32 = 32 then 5 else 0) = len p)) ∧
+    (∃ f e, h2p_parsePushPromise fh p = .ok (f, e) ∧ (len p < over + 4 → e ≠ .nil) ∧
+      (e = .nil → ∃ d, f.bs = [d] ∧ len d + over + 4 = len p)) := by
+  intro padded over
+  have key : ∀ (fixed : Int) (x : Chk (Frm × Err)), x.Safe (PadSpec padded fixed p) →
+      ∃ f e, x = .ok (f, e) ∧ (len p < over + fixed → e ≠ .nil) ∧ (e = .nil → ∃ d, f.bs = [d] ∧ len d + over + fixed = len p) := by
+    intro fixed x hx
+    obtain ⟨⟨f, e⟩, hr, hp⟩ := hx
+    refine ⟨f, e, hr, fun hlt he => ?_, fun he => ?_⟩
+    · obtain ⟨d, _, _, hl⟩ := hp.1 he
+      have : 0 ≤ len d := len_nonneg d
+      omega
+    · obtain ⟨d, hd, _, hl⟩ := hp.1 he
+      exact ⟨d, hd, hl⟩
+  refine ⟨?_, key _ _ (headers_spec fh p), key 4 _ (push_spec fh p)⟩
+  obtain ⟨f, e, h1, h2, h3⟩ := key 0 _ (data_spec fh p)
+  exact ⟨f, e, h1, fun h => h2 (by omega), fun he => by obtain ⟨d, hd, hl⟩ := h3 he; exact ⟨d, hd, by omega⟩⟩
+
+-- non-vacuity: padded DATA on stream 1: pad 2 of 3 remaining bytes; pad 3 = all of them; pad 4 > remaining: error
+example : parseTok (h2p_parseDataFrame ⟨4, 0, 8, 1⟩ [2, 7, 0, 0]) = "ok:07:_" := by decide
+example : parseTok (h2p_parseDataFrame ⟨4, 0, 8, 1⟩ [3, 7, 0, 0]) = "ok:-:_" := by decide
+example : parseTok (h2p_parseDataFrame ⟨4, 0, 8, 1⟩ [4, 7, 0, 0]) = "conn:1" := by decide
+-- HEADERS with PADDED and PRIORITY: 1 + 5 fixed octets; 6 bytes with pad 0: empty fragment; 5 bytes: unexpected EOF
+example : parseTok (h2p_parseHeadersFrame ⟨6, 1, 40, 1⟩ [0, 128, 0, 0, 3, 9]) = "ok:-:1,3,9" := by decide
+example : parseTok (h2p_parseHeadersFrame ⟨5, 1, 40, 1⟩ [0, 128, 0, 0, 3]) = "eof" := by decide
+example : parseTok (h2p_parseHeadersFrame ⟨7, 1, 40, 1⟩ [2, 128, 0, 0, 3, 9, 0]) = "stream:1" := by decide
+-- SETTINGS: INITIAL_WINDOW_SIZE 2^31 is refused, a 7-byte payload is a frame size error
+example : parseTok (h2p_parse ⟨6, 4, 0, 0⟩ [0, 4, 128, 0, 0, 0]) = "conn:3" := by decide
+example : parseTok (h2p_parse ⟨7, 4, 0, 0⟩ [0, 4, 0, 0, 0, 0, 0]) = "conn:6" := by decide
+
+section h2path
+open MosnVerif.Model.H2ReadLoop MosnVerif.Lemmas.H2ReadLoop
+
+/-- the out-of-range case of the parser oracle is dead: on the bytes of every frame the regenerated parser answers -/
+theorem genParse_defined (frame : List UInt8) : genParse? frame ≠ none := by
+  unfold genParse?
+  split
+  · rename_i h _
+    have hs := parse_spec (fhOf h) (frame.drop 9)
+    obtain ⟨⟨f, e⟩, hr, _⟩ := hs
+    rw [hr]
+    cases e <;> simp
+  · simp
+
+/-- **http2_no_overread** (lifts `http2_no_overread_partial`): the HTTP/2 read path `MFramer.ReadFrame` with its payload
+parsers being the REGENERATED ones (`genOrc`: no oracle for them) — for EVERY buffer content, offset, read limit and
+EVERY verdict function of the header-block validation:
+(1) `readFrameHeader`, the payload slice and every nested read of `readMetaFrame` stay inside the buffered bytes;
+(2) every payload parser, on every header and payload, stays inside the payload, and the parser oracle of the loop model
+never takes its out-of-range branch;
+(3) a frame or a StreamError drained ≥ 9 bytes and never more than were buffered.
+The ONLY parameter left is the verdict (ok / connection error / StreamError) on a COMPLETE header block.  What that
+verdict reads of the buffer it reads through the HPACK decoder: `hpack_block_no_oob` below (every table access, for every
+block, callback and bounded decoder state) with `hpack_varint_no_overread` / `hpack_string_bounded` (its byte reads) — a
+hand-written mirror of hpack.go (only `Decoder.at` is regenerated), compared with the real decoder by kinds hpack /
+hpackx on exact-capacity buffers; the rest of the verdict (field validation) sees decoded fields only. -/
+theorem http2_no_overread (mx : Nat) (group : List UInt8 → PRes) (b : List UInt8) :
+    (∀ off, readHdr b off ≠ .oob ∧ one mx (genOrc group) b off ≠ .oob) ∧
+    (∀ off0 sid fuel ms, contLoop mx (genOrc group) b off0 sid fuel ms ≠ .oob) ∧
+    readFrame mx (genOrc group) b ≠ .oob ∧
+    (∀ fh payload, h2p_parse fh payload ≠ .oob) ∧ (∀ frame, genParse? frame ≠ none) ∧
+    (∀ k, (readFrame mx (genOrc group) b = .frame k ∨ readFrame mx (genOrc group) b = .stream k) → 9 ≤ k ∧ k ≤ b.length) :=
+  ⟨fun off => ⟨(readHdr_spec b off).1, (one_spec mx _ b off).1⟩,
+   fun off0 sid fuel ms => (contLoop_spec mx _ b off0 sid fuel ms).1,
+   (readFrame_spec mx _ b).1, h2_payload_parsers_no_oob, genParse_defined, (readFrame_spec mx _ b).2⟩
+
+-- non-vacuity: a 13-byte WINDOW_UPDATE with increment 0 on stream 1 is a StreamError of the REGENERATED parser and is
+-- drained whole; a padded DATA frame whose pad length exceeds the payload is a connection error
+example : readFrame 16384 (genOrc (fun _ => .ok)) [0,0,4, 8, 0, 0,0,0,1, 0,0,0,0] = .stream 13 := by decide +kernel
+example : readFrame 16384 (genOrc (fun _ => .ok)) [0,0,2, 0, 8, 0,0,0,1, 5,0] = .conn := by decide +kernel
+example : readFrame 16384 (genOrc (fun _ => .ok)) [0,0,2, 0, 8, 0,0,0,1, 1,0] = .frame 11 := by decide +kernel
+
+open MosnVerif.Model.HpackEmit MosnVerif.Lemmas.HpackEmit in
+/-- **hpack_block_no_oob** (the last stage of the HTTP/2 read path): `hpack.Decoder.Write` + `Close` on the header block a
+HEADERS+CONTINUATION group delivers — EVERY block, EVERY emit callback (whatever `readMetaFrame`'s callback keeps and
+whenever it switches emitting off), from EVERY decoder state whose dynamic table is consistent and within 32 bits (what
+`NewDecoder` / SETTINGS establish and every representation preserves) — never indexes the static or the dynamic table out
+of range (`Decoder.at`, regenerated with Go's integer types and checked access: Gen/HpackAt); the indices it is given come
+out of `readVarInt` (< 2^64).  Together with `hpack_varint_no_overread` / `hpack_string_bounded` (the decoder's byte reads)
+this covers what the header-block verdict of `http2_no_overread` reads: the verdict oracle left there decides only
+ok / connection error / StreamError from DECODED fields (field validation, pseudo-header rules) and reads no buffer. -/
+theorem hpack_block_no_oob {σ : Type} (cb : Callback σ) (d : DecE) (st : σ) (block : List UInt8) (hb : Bounded d.base) :
+    d.decodeFullP codePolicy cb st block ≠ .error .panic :=
+  MosnVerif.Lemmas.HpackNoPanic.decodeFullP_no_panic codePolicy cb d st block hb
+
+open MosnVerif.Model.HpackEmit MosnVerif.Lemmas.HpackEmit MosnVerif.Model.HpackTable in
+-- non-vacuity: a fresh decoder is bounded; an indexed field with the maximal 10-byte index (2^63 + 126) is refused, not a panic
+example : Bounded (DecE.new 4096).base := bounded_new 4096 (by decide)
+open MosnVerif.Model.HpackEmit MosnVerif.Model.HpackTable in
+example : (match (DecE.new 4096).decodeFullP codePolicy (fun (_ : Unit) _ => ((), false)) ()
+      [0xff, 0xff, 0xff, 0xff, 0xff, 0xff, 0xff, 0xff, 0xff, 0x7f] with
+    | .error (.dec _) => true | _ => false) = true := by decide +kernel
+
+open MosnVerif.Model.H2Alloc MosnVerif.Lemmas.H2Alloc MosnVerif.Gen.C08H2Alloc in
+/-- **h2_alloc_bounded**: (1) `MFramer.readFrameHeader` / `ReadFrame` allocate NOTHING in front of the payload slice
+(no make / new / append / &T{} / buffer call), the test "payload not buffered yet ⇒ ErrAGAIN" precedes the slice and the
+parser call, the payload is a view of the read buffer, and the whole function allocates nothing itself (all regenerated);
+in the loop model a payload parser runs only on a frame whose 9 + announced-length bytes have all arrived;
+(2) the header list `mh.Fields` built by `readMetaFrame` — the emit callback run as the regenerated step program on EVERY
+sequence of decoded fields — never holds fields of more than `fr.maxHeaderListSize()` (regenerated; what both connection
+constructors configure: 1 MiB; ≤ 16 MiB whatever is configured ≤ that) in total size, hence at most limit/32 entries. -/
+theorem h2_alloc_bounded :
+    (h2a_allocBeforePayload = [] ∧ h2a_waitPrecedesSlice = true ∧ h2a_payloadIsView = true ∧ h2a_readFrameAllocs = []) ∧
+    (∀ mx o b off h, (one mx o b off = .ok h ∨ one mx o b off = .stream h) → off + 9 + h.len ≤ b.length) ∧
+    (∀ c ∈ h2a_configured, 0 ≤ h2a_maxHeaderListSize c ∧ h2a_maxHeaderListSize c ≤ 16777216) ∧
+    (∀ (limit : Int), 0 ≤ limit → ∀ fields : List (Nat × Nat),
+      let s := emitAll h2a_emitOps limit fields
+      MosnVerif.Model.H2Alloc.sum s.kept ≤ limit ∧ 32 * (s.kept.length : Int) ≤ limit) := by
+  refine ⟨by decide, fun mx o b off h hh => ?_, by decide, fun limit hl fields => ?_⟩
+  · have := (one_spec mx o b off).2 h hh
+    simp only [MosnVerif.Gen.FrameLen.h2_size] at this
+    omega
+  · obtain ⟨h0, h1, h2⟩ := emitAll_inv limit hl fields
+    show MosnVerif.Model.H2Alloc.sum (emitAll h2a_emitOps limit fields).kept ≤ limit ∧
+      32 * ((emitAll h2a_emitOps limit fields).kept.length : Int) ≤ limit
+    constructor <;> omega
+
+open MosnVerif.Model.H2Alloc MosnVerif.Gen.C08H2Alloc in
+-- non-vacuity: budget 100: fields of size 40 (3+5+32), 40, 40: two are kept, the third truncates; later fields are dropped
+example : let s := emitAll h2a_emitOps 100 [(3, 5), (3, 5), (3, 5), (0, 0)]
+    s.kept = [40, 40] ∧ s.remain = 20 ∧ s.truncated = true ∧ s.enabled = false := by decide
+open MosnVerif.Model.H2Alloc in
+-- the class the theorem excludes: appending before the test overshoots the budget
+example : (emitAll ["size", "append", "test", "take"] 50 [(20, 20)]).kept = [72] := by decide
+end h2path
+
+section streamalloc
+open MosnVerif.Model.StreamAlloc MosnVerif.Lemmas.StreamAlloc MosnVerif.Gen.C08StreamAlloc
+
+/-- **stream_alloc_bounded** (allocation, STREAM layer): (1) every sized buffer allocation on the stream-layer receive
+paths (pkg/stream/http2/stream.go both `handleFrame`s; pkg/stream/http/stream.go and pkg/stream/xprotocol/{conn,stream}.go
+have none) — `buffer.GetIoBuffer(n)` / `NewIoBuffer` / `NewPipeBuffer` / `GetBytes` / `make([]byte, n)` / `Grow(n)`, regenerated
+with the provenance of `n` — is sized by a constant or by the length of RECEIVED bytes, never by an announced value;
+(2) for EVERY announced content-length (any integer: huge, negative, what a non-numeric header parses to) and EVERY
+sequence of DATA payload lengths, the buffer that collects the request (server side) resp. response (client side) body —
+first allocation of the regenerated size, then `Write` per payload — holds exactly what arrived, in a capacity of at most
+`8 · received + 4096` bytes: a function of the bytes that ARRIVED only;
+(3) the pipe of streaming mode is sized by the received payload as well, the buffer of an empty body is a constant. -/
+theorem stream_alloc_bounded :
+    (sa_sites.all (fun s => s.2.2.2 == "received-length" || s.2.2.2 == "constant") = true) ∧
+    (∀ (ann : Int) (chunks : List Nat) (b : Buf), collect sa_srv_collect ann chunks = some b →
+      b.len = total chunks ∧ b.cap ≤ capBound (total chunks)) ∧
+    (∀ (ann : Int) (chunks : List Nat) (b : Buf), collect sa_cli_collect ann chunks = some b →
+      b.len = total chunks ∧ b.cap ≤ capBound (total chunks)) ∧
+    (∀ recv ann : Int, sa_srv_pipe recv ann = recv ∧ sa_cli_pipe recv ann = recv ∧ sa_srv_empty recv ann = 0 ∧
+      sa_cli_empty recv ann = 0) :=
+  ⟨by decide,
+   fun ann chunks b h => collect_bounded sa_srv_collect (fun _ _ => rfl) ann chunks b h,
+   fun ann chunks b h => collect_bounded sa_cli_collect (fun _ _ => rfl) ann chunks b h,
+   fun _ _ => ⟨rfl, rfl, rfl, rfl⟩⟩
+
+-- non-vacuity: content-length 268435456 announced, one byte arrives: a 64-byte slot; 65 + 1000 bytes: 128, then 2048
+example : collect sa_srv_collect 268435456 [1] = some ⟨64, 1⟩ := by decide
+example : collect sa_cli_collect (-5) [65, 1000] = some ⟨2048, 1065⟩ := by decide +kernel
+example : sa_sites.length = 6 := by decide
+-- the class the theorem excludes: a collecting buffer sized by the announcement holds 1 byte in 256 MiB
+example : (collect (fun recv ann => if ann > recv then ann else recv) 268435456 [1]).map (·.cap) = some 268435456 := by
+  decide +kernel
+example : parseInt64 "99999999999999999999" = 9223372036854775807 ∧ parseInt64 "abc" = 0 ∧ parseInt64 "-5" = -5 := by decide
+end streamalloc
+
+/-- **hpack_varint_gen_no_overread** (HPACK byte reads, regenerated): `readVarInt` of hpack.go translated statement by
+statement (Gen/C08HpackRead: `p[0]`, `p[1:]` checked; the continuation loop with its state; `panic("bad n")`), for every
+prefix size the decoder uses (1..8) and EVERY byte string: no access outside the bytes given, no panic, the loop ends;
+success consumed ≥ 1 byte and never more than were given; an error (need-more, overflow) consumed nothing.
+This is `hpack_varint_no_overread` re-proved over the regenerated program instead of the hand-written mirror.
+NOT yet regenerated (still the mirror of Model/HpackInt / HpackEmit): `Decoder.readString`, `parseHeaderFieldRepr` and the
+three `parseField…` functions; Huffman decoding of the string body stays a named oracle. -/
+theorem hpack_varint_gen_no_overread (n : Int) (p : MosnVerif.Model.CheckedGo.Bytes) (h1 : 1 ≤ n) (h8 : n ≤ 8) :
+    MosnVerif.Gen.C08HpackRead.hpk_readVarInt n p ≠ .oob ∧
+    ∀ v r e, MosnVerif.Gen.C08HpackRead.hpk_readVarInt n p = .ok (v, r, e) →
+      (e = Err.nil → len r < len p) ∧ (e ≠ Err.nil → r = p) := by
+  have hs := MosnVerif.Lemmas.HpackRead.readVarInt_spec n p h1 h8
+  refine ⟨Safe.ne_oob hs, fun v r e h => ?_⟩
+  have hv : MosnVerif.Lemmas.HpackRead.VarIntSpec p (v, r, e) := Safe.value hs h
+  exact hv
+
+-- non-vacuity: 7-bit prefix: 10 fits the prefix; 127 + 0x9a 0x0a = 1337 (RFC 7541 C.1.2 with a 7-bit prefix); truncated: need more
+example : MosnVerif.Gen.C08HpackRead.hpk_readVarInt 7 [10, 99] = .ok (10, [99], Err.nil) := by decide +kernel
+example : MosnVerif.Gen.C08HpackRead.hpk_readVarInt 5 [31, 154, 10, 7] = .ok (1337, [7], Err.nil) := by decide +kernel
+example : MosnVerif.Gen.C08HpackRead.hpk_readVarInt 5 [31, 154] = .ok (0, [31, 154], Err.again) := by decide +kernel
+end c08p10
 
 end MosnVerif.Props.C08
